@@ -1,32 +1,98 @@
 import RoaringModel.Lemmas.InterSer
+import RoaringModel.Lemmas.InterSerSpec
+import RoaringModel.Lemmas.InterSerTrunc
+import RoaringModel.Lemmas.AlgebraSpec
+import RoaringModel.Lemmas.SpecRoundTrip
 import RoaringModel.SpecCodec
 /-!
-# C18 — intersection with a serialized bitmap (partial)
+# C18 — intersection with a serialized bitmap
 
-Full statement (`C18_statement`): for well-formed `a` and every conformant stream `s` (accepted by the strict
-reference decoder with set `S`), `intersection_with_serialized_unchecked` returns a well-formed value whose
-elements are exactly those of `a` that are in `S`; a truncated stream gives an error or that same value, never
-a panic.
+Full statement (`C18_statement`, proved: `C18`): for a well-formed `a` and every conformant stream `s` (a byte
+string accepted by the strict reference decoder with set `S`), `intersection_with_serialized_unchecked` returns,
+in both build configurations, a well-formed value whose elements are exactly those of `a` that are in `S`
+(`C18_value`: `elems r = Spec.sAnd (elems a) S`); for every truncation of the stream the result is an
+`UnexpectedEof` error or that same value — never a panic, never a different value (`C18_trunc`).
 
-Proved here: the parts that do not need the container-level `&=` lemmas of the algebra family — absence of
-panics for *every* input in builds without debug assertions, error propagation from a truncated or invalid
-header in every build, and the empty-left-operand instance of the offset path.  The rest is covered by the
-correspondence check (conformant streams of every shape, truncations at every kind of boundary, the D7
-reproducer) and by the driver's run-time cross-check `elems result = a ∩ Spec.decode s`.
+Also proved, for *arbitrary* byte strings: no panic in builds without debug assertions
+(`C18_no_panic_release`), header errors are propagated (`C18_header_error`), and truncation can only turn the
+outcome into EOF (`C18_trunc_any`).
+
+The hypothesis `∀ x ∈ bs, x < 256` says that the `List Nat` is a byte string (see C06).
 -/
 namespace Roaring.C18
 open Roaring Roaring.Parser
 
 def C18_statement : Prop :=
-  ∀ (dbg : Bool) (a : Bitmap) (bs S rest : List Nat), BitmapWF a → Spec.decode bs = some (S, rest) →
-    (∃ r, Bitmap.interSer dbg a bs = .ok r ∧ BitmapWF r ∧ ∀ x, x ∈ Bitmap.elems r ↔ x ∈ Bitmap.elems a ∧ x ∈ S) ∧
+  ∀ (dbg : Bool) (a : Bitmap) (bs S rest : List Nat), Bitmap.WF a → (∀ x ∈ bs, x < 256) →
+    Spec.decode bs = some (S, rest) →
+    (∃ r, Bitmap.interSer dbg a bs = .ok r ∧ Bitmap.WF r ∧ ∀ x, x ∈ Bitmap.elems r ↔ x ∈ Bitmap.elems a ∧ x ∈ S) ∧
     ∀ k, Bitmap.interSer dbg a (bs.take k) ≠ .error .panic ∧
       ∀ r, Bitmap.interSer dbg a (bs.take k) = .ok r → ∀ x, x ∈ Bitmap.elems r ↔ x ∈ Bitmap.elems a ∧ x ∈ S
+
+/-- **C18, value.**  Well-formed `a`, conformant stream with set `S` (either cookie, with or without offset
+    table, array / bitset / run chunks), either build configuration: the result is a well-formed value and its
+    element list is the reference intersection of `elems a` and `S`. -/
+theorem C18_value (dbg : Bool) (a : Bitmap) (bs S rest : List Nat) (ha : Bitmap.WF a) (hb : ∀ x ∈ bs, x < 256)
+    (h : Spec.decode bs = some (S, rest)) :
+    ∃ r, Bitmap.interSer dbg a bs = .ok r ∧ Bitmap.WF r ∧ Bitmap.elems r = Spec.sAnd (Bitmap.elems a) S := by
+  obtain ⟨r, h1, h2, h3⟩ := interSer_spec dbg a bs S rest ha hb h
+  obtain ⟨b, _, hbw, hbe⟩ := decode_spec false false bs S rest hb h
+  have hsa := Bitmap.sorted_elems a ha.dir
+  have hsS : Sorted S := by rw [← hbe]; exact Bitmap.sorted_elems b hbw.dir
+  refine ⟨r, h1, h2, ?_⟩
+  apply Arr.sorted_ext _ _ (Bitmap.sorted_elems r h2.dir) (Spec.sorted_sAnd _ _ hsa hsS)
+  intro x
+  rw [h3 x, Spec.mem_sAnd _ _ hsa hsS]
+
+/-- in particular for the streams the crate itself writes (cookie `12346`, offset table — the seeking path):
+    `a.intersection_with_serialized_unchecked(serialize(b))` is `a ∩ b`, whatever follows the serialisation -/
+theorem C18_serialize (dbg : Bool) (a b : Bitmap) (ha : Bitmap.WF a) (hb : Bitmap.WF b) :
+    ∃ r, Bitmap.interSer dbg a (Bitmap.serialize b) = .ok r ∧ Bitmap.WF r ∧
+      Bitmap.elems r = Spec.sAnd (Bitmap.elems a) (Bitmap.elems b) := by
+  have hd := specDecode_serialize b hb.toCodec []
+  rw [List.append_nil] at hd
+  exact C18_value dbg a _ _ [] ha (serialize_isBytes b) hd
+
+/-- **C18, truncation (any input).**  For every left operand, every byte string and every cut, in both build
+    configurations: on the truncated input the call fails with `UnexpectedEof`, or does exactly what it does on
+    the whole input. -/
+theorem C18_trunc_any (dbg : Bool) (a : Bitmap) (bs : List Nat) (k : Nat) :
+    Bitmap.interSer dbg a (bs.take k) = .error .eof ∨
+    Bitmap.interSer dbg a (bs.take k) = Bitmap.interSer dbg a bs :=
+  interSer_trunc dbg a bs k
+
+/-- **C18, truncation.**  For a well-formed `a` and every truncation of a conformant stream (debug assertions on
+    or off): an `UnexpectedEof` error, or the correct value — never a panic, never a wrong value. -/
+theorem C18_trunc (dbg : Bool) (a : Bitmap) (bs S rest : List Nat) (ha : Bitmap.WF a) (hb : ∀ x ∈ bs, x < 256)
+    (h : Spec.decode bs = some (S, rest)) (k : Nat) :
+    Bitmap.interSer dbg a (bs.take k) = .error .eof ∨
+    ∃ r, Bitmap.interSer dbg a (bs.take k) = .ok r ∧ Bitmap.WF r ∧
+      Bitmap.elems r = Spec.sAnd (Bitmap.elems a) S := by
+  obtain ⟨r, h1, h2, h3⟩ := C18_value dbg a bs S rest ha hb h
+  rcases C18_trunc_any dbg a bs k with ht | ht
+  · exact Or.inl ht
+  · exact Or.inr ⟨r, by rw [ht, h1], h2, h3⟩
+
+/-- the full statement -/
+theorem C18 : C18_statement := by
+  intro dbg a bs S rest ha hb h
+  obtain ⟨r, h1, h2, h3⟩ := interSer_spec dbg a bs S rest ha hb h
+  refine ⟨⟨r, h1, h2, h3⟩, ?_⟩
+  intro k
+  rcases C18_trunc_any dbg a bs k with ht | ht
+  · rw [ht]
+    exact ⟨by simp, by intro r' hr'; cases hr'⟩
+  · rw [ht, h1]
+    refine ⟨by simp, ?_⟩
+    intro r' hr'
+    simp only [Except.ok.injEq] at hr'
+    subst hr'
+    exact h3
 
 /-- Release builds (no debug assertions): for **every** left operand and **every** byte string — conformant,
     truncated anywhere, or garbage — the result is a value or an error, never a panic (this is what the D7
     repair, `?` instead of `unwrap()`, establishes). -/
-theorem C18_no_panic_release_partial (a : Bitmap) (bytes : List Nat) :
+theorem C18_no_panic_release (a : Bitmap) (bytes : List Nat) :
     Bitmap.interSer false a bytes ≠ .error .panic := by
   unfold Bitmap.interSer
   intro h
@@ -44,7 +110,7 @@ theorem C18_header_cursor (bytes : List Nat) :
   simpa using this
 
 /-- In every build: if the stream ends (or is invalid) inside the header, the call returns that error. -/
-theorem C18_header_error_partial (dbg : Bool) (a : Bitmap) (bytes : List Nat) (e : DecErr)
+theorem C18_header_error (dbg : Bool) (a : Bitmap) (bytes : List Nat) (e : DecErr)
     (h : decodeHeader readN bytes = .error e) : Bitmap.interSer dbg a bytes = .error e := by
   have hc := C18_header_cursor bytes
   rw [h] at hc
@@ -60,7 +126,7 @@ theorem C18_header_error_partial (dbg : Bool) (a : Bitmap) (bytes : List Nat) (e
 
 /-- Offset path with an empty left operand: once the header is read the result is the empty bitmap, whatever
     follows (nothing of the payload is looked at). -/
-theorem C18_empty_left_partial (dbg : Bool) (bytes : List Nat) (hd : Header) (rest : List Nat)
+theorem C18_empty_left (dbg : Bool) (bytes : List Nat) (hd : Header) (rest : List Nat)
     (h : decodeHeader readN bytes = .ok (hd, rest)) (ho : hd.hasOffsets = true) :
     Bitmap.interSer dbg [] bytes = .ok [] := by
   have hc := C18_header_cursor bytes
